@@ -10,26 +10,26 @@
   (a curve `C : K → P K`; for a line edge `A → B`, `C = lerp A B`): `RepRec C r` says that the
   record's event position is `C r.t0` and its `to` is `C r.t1`.
 
-  * established by `add_edge` in both directions (`rep_add_edge`, `rep_add_edge_line`);
+  * established by `add_edge` in both directions (`rep_add_edge`, `rep_add_edge_line`) and by the
+    curve builders for curves pointing either way (`rep_curve`, since fix 8662f1bc);
   * `remap_lerp`: both branches of `remap_t_in_range` are the affine map `0 ↦ s, 1 ↦ e`;
   * preserved by every cut of `process_intersection` (`rep_intersection`,
-    `rep_intersection_below`, `rep_touch`) and by `merge_coincident_edges` on edges that are
-    not level (`rep_coincident_partial`);
+    `rep_intersection_below`, `rep_touch`) and by `merge_coincident_edges`, level edges included
+    (`rep_coincident`, since fix 456c058b);
   * from it: every source of a vertex lies where it says (`sources_on_sources`), there is at
     least one source (`sources_nonempty`), the interpolated attributes are the average over the
     sources (`attributes_average`), and attributes that are an affine function of the position
     are reproduced (`affine_attributes_reproduced`).
 
-  FALSE of the current code, with concrete witnesses on the model (each reproduced on the real
-  code by the oracle, see findings.d/C07.json):
+  FALSE of the current code, with a concrete witness on the model (reproduced on the real code by
+  the oracle, see findings.d/C07.json):
   * `rep_split_at_vertex_witness`  the lower part of an edge split at a vertex lying on it keeps
     the source record's stale `range.start`; the next cut reports t = 1/2 for the point at 3/4.
     The true part is `rep_split_at_vertex_partial`: histories without such a split keep `Rep`.
-  * `rep_coincident_level_witness`  `merge_coincident_edges` on level edges: `solve_t_for_y`
-    returns 0, the split record claims to be the edge's start.
-  * `curve_swap_witness`  a curve whose start is after its end is flattened from its end, and its
-    records carry the flipped curve's parameters with the unflipped endpoint ids; the true part is
-    `rep_curve_unswapped_partial`.
+
+  Repaired in /repo (model updated, full theorems proved, former witnesses described in the
+  comments of `rep_coincident` and `rep_curve`): coincident level edges (456c058b), curves drawn
+  against the sweep (8662f1bc).
 
   Not covered by theorems: IEEE rounding (oracle envelope), the sweep that decides which cut
   happens when (only the cuts themselves are modelled), `t` on curves after a cut of a flattened
@@ -196,49 +196,77 @@ example : RepActive (P.lerp (⟨0, 0⟩ : P ℚ) ⟨0, 10⟩)
     (activate ⟨0, 0⟩ (pendingOf ⟨⟨0, 0⟩, ⟨0, 10⟩, 0, 1, 1, true, 0, 1⟩)) :=
   ⟨by simp [activate, pendingOf, lerp_zero], by simp [activate, pendingOf, lerp_one]⟩
 
-/-- `rep_coincident` — PARTIAL: `merge_coincident_edges` creates a record satisfying `Rep` when the
-edges are not level (`lower.to.y ≠ cur.y`) and the split point is on the longer edge. Missing: the
-level case, which is false of the code (`rep_coincident_level_witness`). -/
-theorem rep_coincident_partial (C : K → P K) (hC : AffineParam C) (cur : P K) (lower : Pending K)
-    (sp : P K) (hl : RepPending C cur lower) (hy : lower.to.y ≠ cur.y)
+theorem solveTForY_on (cur dest : P K) (u : K) (hy : dest.y ≠ cur.y) :
+    solveTForY cur dest (P.lerp cur dest u).y = u := by
+  have hne : dest.y - cur.y ≠ 0 := sub_ne_zero.mpr hy
+  unfold solveTForY
+  have : ((dest.y - cur.y == (Scalar.zero : K)) = true) ↔ dest.y - cur.y = 0 := by
+    rw [zero_K]; exact sc_beq _ _
+  rw [if_neg (fun h => hne (this.mp h)), lerp_def]
+  field_simp
+  ring
+
+theorem solveTForX_on (cur dest : P K) (u : K) (hx : dest.x ≠ cur.x) :
+    solveTForX cur dest (P.lerp cur dest u).x = u := by
+  have hne : dest.x - cur.x ≠ 0 := sub_ne_zero.mpr hx
+  unfold solveTForX
+  have : ((dest.x - cur.x == (Scalar.zero : K)) = true) ↔ dest.x - cur.x = 0 := by
+    rw [zero_K]; exact sc_beq _ _
+  rw [if_neg (fun h => hne (this.mp h)), lerp_def]
+  field_simp
+  ring
+
+/-- the split parameter of `merge_coincident_edges` (solved along the larger extent, fix
+456c058b) locates every point of a non-degenerate edge, level or not -/
+theorem splitT_on (cur dest : P K) (u : K) (hne : cur ≠ dest) :
+    splitT cur dest (P.lerp cur dest u) = u := by
+  unfold splitT
+  split
+  · rename_i h
+    have h' : |dest.y - cur.y| < |dest.x - cur.x| := h
+    apply solveTForX_on
+    intro hx
+    rw [hx, sub_self, abs_zero] at h'
+    exact absurd h' (not_lt.mpr (abs_nonneg _))
+  · rename_i h
+    have h' : ¬ |dest.y - cur.y| < |dest.x - cur.x| := h
+    apply solveTForY_on
+    intro hy
+    rw [hy, sub_self, abs_zero] at h'
+    have hx : dest.x - cur.x = 0 := by
+      by_contra hx0
+      exact h' (abs_pos.mpr hx0)
+    apply hne
+    apply P.ext'
+    · exact (sub_eq_zero.mp hx).symm
+    · exact hy.symm
+
+/-- `rep_coincident`: `merge_coincident_edges` creates a record satisfying `Rep` whenever the split
+point is on the longer edge — level edges included (since fix 456c058b the parameter is solved
+along the larger extent of the edge).
+
+Before 456c058b the code used `solve_t_for_y`, which is 0 on a level edge, and only
+`rep_coincident_partial` (edges with `lower.to.y ≠ cur.y`) held; the witness
+`rep_coincident_level_witness` (A = (0,0) → B = (6,0) split at (4,0): record with t = 0, reported
+as endpoint A, although (4,0) is at 2/3) was a theorem about the old model and is retired with it. -/
+theorem rep_coincident (C : K → P K) (hC : AffineParam C) (cur : P K) (lower : Pending K)
+    (sp : P K) (hl : RepPending C cur lower) (hne : cur ≠ lower.to)
     (hon : ∃ u, sp = P.lerp cur lower.to u) :
     RepRec C (mergeCoincident cur lower sp) := by
   obtain ⟨u, hu⟩ := hon
-  have hne : lower.to.y - cur.y ≠ 0 := sub_ne_zero.mpr hy
-  have ht : solveTForY cur lower.to sp.y = u := by
-    unfold solveTForY
-    have : ((lower.to.y - cur.y == (Scalar.zero : K)) = true) ↔ lower.to.y - cur.y = 0 := by
-      rw [zero_K]; exact sc_beq _ _
-    rw [if_neg (fun h => hne (this.mp h))]
-    have hy' : sp.y = (1 - u) * cur.y + u * lower.to.y := by rw [hu, lerp_def]
-    rw [hy']
-    field_simp
-    ring
+  have ht : splitT cur lower.to sp = u := by rw [hu]; exact splitT_on cur lower.to u hne
   have key := cut_key C hC cur lower.to lower.src.t0 lower.rangeEnd u sp hl.1 hl.2 hu
   unfold mergeCoincident
   rw [ht]
   exact ⟨key.symm, fun _ => hl.2⟩
 
-example : ∃ u : ℚ, (⟨2, 4⟩ : P ℚ) = P.lerp ⟨0, 0⟩ ⟨3, 6⟩ u := ⟨2/3, by rw [lerp_def]; norm_num⟩
-
-/-- **Witness (defect).** Two coincident level edges from (0,0): one to (4,0), the other — the
-edge `A = (0,0) → B = (6,0)` of endpoint ids 0 → 1 — is split at (4,0). The record created for its
-lower part claims `t = 0`: it reports the endpoint 0 (at (0,0)) as the source of the vertex at
-(4,0), where the edge's parameter is 2/3. -/
-theorem rep_coincident_level_witness :
-    let A : P ℚ := ⟨0, 0⟩
-    let B : P ℚ := ⟨6, 0⟩
-    let r0 : EdgeRec ℚ := ⟨A, B, 0, 1, 1, true, 0, 1⟩
-    let r := mergeCoincident A (pendingOf r0) ⟨4, 0⟩
-    RepRec (P.lerp A B) r0 ∧ r.pos = ⟨4, 0⟩ ∧ r.t0 = 0 ∧ sourceOf r = .endpoint 0
-      ∧ ¬ RepRec (P.lerp A B) r ∧ P.lerp A B (2/3) = r.pos := by
-  refine ⟨⟨by simp [lerp_zero], fun _ => by simp [lerp_one]⟩, rfl, ?_, ?_, ?_, ?_⟩
-  · simp [mergeCoincident, pendingOf, solveTForY, remapT_eq, beq_K]
-  · simp [sourceOf, mergeCoincident, pendingOf, solveTForY, remapT_eq, beq_K]
-  · intro h
-    have h1 := h.1
-    simp [mergeCoincident, pendingOf, solveTForY, remapT_eq, beq_K, lerp_def] at h1
-  · simp [mergeCoincident, lerp_def]; norm_num
+/-- non-vacuity, on the former witness: the level edge (0,0) → (6,0) split at (4,0) -/
+example :
+    let r0 : EdgeRec ℚ := ⟨⟨0, 0⟩, ⟨6, 0⟩, 0, 1, 1, true, 0, 1⟩
+    RepPending (P.lerp (⟨0, 0⟩ : P ℚ) ⟨6, 0⟩) ⟨0, 0⟩ (pendingOf r0) ∧ (⟨0, 0⟩ : P ℚ) ≠ (pendingOf r0).to ∧
+      ∃ u : ℚ, (⟨4, 0⟩ : P ℚ) = P.lerp ⟨0, 0⟩ (pendingOf r0).to u := by
+  refine ⟨⟨by simp [pendingOf, lerp_zero], by simp [pendingOf, lerp_one]⟩, by simp [pendingOf], 2/3, ?_⟩
+  simp [pendingOf, lerp_def]; norm_num
 
 /-- **Witness (defect)**, the property file's example. Edge `A = (0,0) → B = (0,10)`; a vertex of
 another sub-path at (0,5) splits it (`edges_to_split`); the lower part, now active from (0,5), is
@@ -316,63 +344,99 @@ theorem mem_pushEdge (b : Builder K) (e : Option (EdgeRec K)) (r : EdgeRec K)
     · exact Or.inl rfl
     · exact Or.inr h
 
-theorem rep_curve_step (C : K → P K) (w : Int) (toId : Nat) (s : CurveLoop K) (l : Piece K)
-    (hl : l.a = C l.t0 ∧ l.b = C l.t1) (hs : ∀ r ∈ s.bld.recs, RepRec C r) :
-    ∀ r ∈ (curveStep w toId s l).bld.recs, RepRec C r := by
+theorem rep_curve_step (C : K → P K) (old : List (EdgeRec K)) (ns : Bool) (w : Int) (toId : Nat)
+    (s : CurveLoop K) (l : Piece K)
+    (hl : l.a = C (pieceT ns l.t0) ∧ l.b = C (pieceT ns l.t1))
+    (hs : ∀ r ∈ s.bld.recs, r ∈ old ∨ RepRec C r) :
+    ∀ r ∈ (curveStep ns w toId s l).bld.recs, r ∈ old ∨ RepRec C r := by
   unfold curveStep
   split
   · exact hs
   · intro r hr
-    have hv : RepRec C (vertexEventOnCurve l.a l.t0 s.bld.prevId toId) :=
+    have hv : RepRec C (vertexEventOnCurve l.a (pieceT ns l.t0) s.bld.prevId toId) :=
       ⟨hl.1, fun h => by simp [vertexEventOnCurve] at h⟩
     simp only at hr
     rcases mem_pushEdge _ _ r hr with he | hr'
-    · rw [hl.1, hl.2] at he; exact (rep_add_edge C w _ toId l.t0 l.t1 r he).1
+    · rw [hl.1, hl.2] at he; exact Or.inr (rep_add_edge C w _ toId _ _ r he).1
     · split at hr'
       · simp only [Builder.pushRec, List.mem_cons] at hr'
         rcases hr' with rfl | hr'
-        · exact hv
+        · exact Or.inr hv
         · exact hs r hr'
       · exact hs r hr'
 
-theorem rep_curve_fold (C : K → P K) (w : Int) (toId : Nat) (flat : List (Piece K))
-    (hf : ∀ l ∈ flat, l.a = C l.t0 ∧ l.b = C l.t1) (s : CurveLoop K)
-    (hs : ∀ r ∈ s.bld.recs, RepRec C r) :
-    ∀ r ∈ (flat.foldl (curveStep w toId) s).bld.recs, RepRec C r := by
+theorem rep_curve_fold (C : K → P K) (old : List (EdgeRec K)) (ns : Bool) (w : Int) (toId : Nat)
+    (flat : List (Piece K))
+    (hf : ∀ l ∈ flat, l.a = C (pieceT ns l.t0) ∧ l.b = C (pieceT ns l.t1)) (s : CurveLoop K)
+    (hs : ∀ r ∈ s.bld.recs, r ∈ old ∨ RepRec C r) :
+    ∀ r ∈ (flat.foldl (curveStep ns w toId) s).bld.recs, r ∈ old ∨ RepRec C r := by
   induction flat generalizing s with
   | nil => exact hs
   | cons l ls ih =>
     simp only [List.foldl_cons]
     exact ih (fun l' hl' => hf l' (List.mem_cons_of_mem _ hl')) _
-      (rep_curve_step C w toId s l (hf l (List.mem_cons_self ..)) hs)
+      (rep_curve_step C old ns w toId s l (hf l (List.mem_cons_self ..)) hs)
 
-/-- `rep_curve_unswapped` — PARTIAL: for a curve that is NOT reversed (`needs_swap = false`) whose
-flattening pieces are chords of the curve `C` from the current endpoint to `to`, every edge record
-stored by the flattening loop satisfies `Rep` with respect to `C` (so `t` is the curve parameter
-measured from `prev_endpoint_id`). Missing: reversed curves, false of the code
-(`curve_swap_witness`). -/
-theorem rep_curve_unswapped_partial (C : K → P K) (b : Builder K) (dest : P K) (toId : Nat)
-    (flat flatFlipped : List (Piece K)) (hns : isAfter b.current dest = false)
-    (hf : ∀ l ∈ flat, l.a = C l.t0 ∧ l.b = C l.t1) (hb : ∀ r ∈ b.recs, RepRec C r) :
-    ∀ r ∈ (flat.foldl (curveStep 1 toId) ⟨b, b.current, none⟩).bld.recs, RepRec C r :=
-  rep_curve_fold C 1 toId flat hf ⟨b, b.current, none⟩ hb
+theorem rep_curve_tail (C : K → P K) (old : List (EdgeRec K)) (b0 : Builder K) (s : CurveLoop K)
+    (a dest : P K) (toId : Nat) (ns : Bool) (h0 : a = C 0)
+    (hs : ∀ r ∈ s.bld.recs, r ∈ old ∨ RepRec C r) :
+    ∀ r ∈ (curveTail b0 s a dest toId ns).recs, r ∈ old ∨ RepRec C r := by
+  unfold curveTail
+  split
+  · exact hs
+  · rename_i first _
+    intro r hr
+    by_cases hn : b0.nth = 0
+    · simp only [hn, ↓reduceIte] at hr
+      exact hs r hr
+    · by_cases hc : (isAfter a s.bld.prev && isAfter a (if ns = true then s.prev else first)) = true
+      · simp only [hn, hc, ↓reduceIte, Builder.pushRec, List.mem_cons] at hr
+        rcases hr with rfl | hr
+        · exact Or.inr ⟨by simp [vertexEvent, h0], fun h => by simp [vertexEvent] at h⟩
+        · exact hs r hr
+      · simp only [hn, hc, ↓reduceIte] at hr
+        exact hs r hr
 
-/-- **Witness (defect).** The "curve" from endpoint 0 at (0,1) to endpoint 1 at (0,0) (its start
-is after its end), whose flattening — computed on the flipped curve — is the single piece
-(0,0) → (0,1) with parameters 0..1. The stored record sits at (0,0) with `range.start = 0` and the
-unflipped ids 0 → 1: the vertex at (0,0) is reported as endpoint 0, which is at (0,1). -/
-theorem curve_swap_witness :
-    let posOf : Nat → P ℚ := fun id => if id = 0 then ⟨0, 1⟩ else ⟨0, 0⟩
-    let b0 : Builder ℚ := (Builder.init.begin (posOf 0) 0)
-    let b := b0.curveSegment (posOf 1) 1 [⟨⟨0, 1⟩, ⟨0, 0⟩, 0, 1⟩] [⟨⟨0, 0⟩, ⟨0, 1⟩, 0, 1⟩]
-    ∃ r, b.recs = [r] ∧ r.pos = posOf 1 ∧ r.fromId = 0 ∧ r.toId = 1 ∧ r.t0 = 0 ∧
-      sourceOf r = .endpoint 0 ∧ posOf 0 ≠ r.pos := by
-  refine ⟨⟨⟨0, 0⟩, ⟨0, 1⟩, 0, 1, -1, true, 0, 1⟩, ?_, rfl, rfl, rfl, rfl, ?_, ?_⟩
-  · simp [Builder.curveSegment, Builder.begin, Builder.init, curveStep, curveTail, addEdge,
-      Builder.pushEdge, Builder.pushRec, isAfter, beq_P, beq_K]
-    norm_num
-  · simp [sourceOf, beq_K]
-  · simp
+/-- `rep_curve`: every record stored by `quadratic_bezier_segment` / `cubic_bezier_segment` for
+the curve `C` from the current endpoint (`C 0`) satisfies `Rep` with respect to `C` and the ids
+`prev_endpoint_id → to_id`, whichever way the curve points: `flat` are chords of `C`,
+`flatFlipped` chords of the flipped curve `t ↦ C (1 - t)` (used when `needs_swap`), and since fix
+8662f1bc the parameters stored for the latter are `1 - t`.
+
+Before 8662f1bc the flipped flattening's own parameters were stored with the unflipped ids; only
+`rep_curve_unswapped_partial` (curves with `needs_swap = false`) held, and the witness
+`curve_swap_witness` (the "curve" from endpoint 0 at (0,1) to endpoint 1 at (0,0), flipped
+flattening [(0,0) → (0,1), t 0..1]: the record at (0,0) had t = 0 and was reported as endpoint 0,
+which is at (0,1)) was a theorem about the old model and is retired with it. -/
+theorem rep_curve (C : K → P K) (b : Builder K) (dest : P K) (toId : Nat)
+    (flat flatFlipped : List (Piece K)) (h0 : b.current = C 0)
+    (hf : ∀ l ∈ flat, l.a = C l.t0 ∧ l.b = C l.t1)
+    (hff : ∀ l ∈ flatFlipped, l.a = C (1 - l.t0) ∧ l.b = C (1 - l.t1)) :
+    ∀ r ∈ (b.curveSegment dest toId flat flatFlipped).recs, r ∈ b.recs ∨ RepRec C r := by
+  unfold Builder.curveSegment
+  simp only
+  apply rep_curve_tail C b.recs b _ b.current dest toId _ h0
+  cases hns : isAfter b.current dest
+  · simp only [Bool.false_eq_true, if_false]
+    exact rep_curve_fold C b.recs false 1 toId flat
+      (fun l hl => by simpa [pieceT] using hf l hl) _ (fun r hr => Or.inl hr)
+  · simp only [if_true]
+    exact rep_curve_fold C b.recs true (-1) toId flatFlipped
+      (fun l hl => by simpa [pieceT, one_K] using hff l hl) _ (fun r hr => Or.inl hr)
+
+/-- non-vacuity, on the former witness: the reversed straight "curve" `C t = (0, 1 - t)` from
+endpoint 0 at (0,1) to endpoint 1 at (0,0); its record now carries `t = 1` at (0,0), i.e. it is
+reported as endpoint 1. -/
+example :
+    let C : ℚ → P ℚ := fun t => ⟨0, 1 - t⟩
+    let b0 : Builder ℚ := (Builder.init.begin (C 0) 0)
+    let b := b0.curveSegment (C 1) 1 [⟨⟨0, 1⟩, ⟨0, 0⟩, 0, 1⟩] [⟨⟨0, 0⟩, ⟨0, 1⟩, 0, 1⟩]
+    b0.current = C 0 ∧ (∀ l ∈ [(⟨⟨0, 0⟩, ⟨0, 1⟩, 0, 1⟩ : Piece ℚ)], l.a = C (1 - l.t0) ∧ l.b = C (1 - l.t1)) ∧
+    ∃ r, b.recs = [r] ∧ r.pos = C 1 ∧ r.t0 = 1 ∧ sourceOf r = .endpoint 1 := by
+  refine ⟨rfl, by simp, ⟨⟨0, 0⟩, ⟨0, 1⟩, 1, 0, -1, true, 0, 1⟩, ?_, by simp, rfl, by simp [sourceOf, beq_K]⟩
+  simp [Builder.curveSegment, Builder.begin, Builder.init, curveStep, curveTail, addEdge, pieceT,
+    Builder.pushEdge, Builder.pushRec, isAfter, beq_P, beq_K]
+  norm_num
 
 /-! ### Sources -/
 
